@@ -72,9 +72,9 @@ type Farm struct {
 	E    *sim.EthUser
 
 	P          map[string]governance.ProposalID // fund, cancel, vote, withdraw, finalize
-	LockRaw    []byte                            // ongoing ETH lock tracker (report-finality subject)
-	Log        []string                          // prefix execution log: "h=.. KIND code log"
-	PrefixFail []string                          // prefix transactions that did not succeed
+	LockRaw    []byte                           // ongoing ETH lock tracker (report-finality subject)
+	Log        []string                         // prefix execution log: "h=.. KIND code log"
+	PrefixFail []string                         // prefix transactions that did not succeed
 	n          int
 }
 
